@@ -346,4 +346,148 @@ theorem skipLoop_sep {sep : Bytes} (hsep : IsSep sep) (tail : Bytes) (ht : Utf8 
     rw [ih g _ _ (by simp at hf; omega)]
     rw [show (47 :: 42 :: body ++ d) = (47 :: 42 :: body) ++ d by simp, Pos.adv_append]
 
+/-! ### the token arms on any spelling, followed by any well-formed text -/
+
+theorem utf8_spell {bs : Bytes} {t : Tok} {nx : Option UInt8} (h : Spell bs t nx) {rest : Bytes} (hr : Utf8 rest) :
+    Utf8 (bs ++ rest) := by
+  cases h with
+  | punct c t nx hp _ => exact utf8_ascii_cons c (punct_some hp).1 hr
+  | div => exact utf8_ascii_cons 47 (by decide) hr
+  | shl => exact utf8_ascii_append [60, 60] (by decide) hr
+  | shr => exact utf8_ascii_append [62, 62] (by decide) hr
+  | ident _ _ hs _ => exact utf8_ascii_append _ (fun b hb => (isIdentByte_ascii (identOk_bytes hs b hb)).1) hr
+  | num r ds v nx _ _ hds _ _ =>
+    exact utf8_ascii_append _ (by
+      intro b hb; simp at hb; rcases hb with hb | hb
+      · exact radixPrefix_ascii r b hb
+      · exact (isDigit_ascii (hds b hb)).1) hr
+  | chr c nx hc =>
+    have : (39 :: encodeChar c ++ [39]) ++ rest = [39] ++ (encodeChar c ++ ([39] ++ rest)) := by simp
+    rw [this]
+    exact utf8_ascii_append [39] (by decide) (utf8_encodeChar c hc.1 (utf8_ascii_append [39] (by decide) hr))
+  | chrEsc e v nx he =>
+    have he' : e.toNat < 128 := by
+      unfold charEsc at he
+      repeat' split at he
+      all_goals first | omega | (simp at he)
+    exact utf8_ascii_append [39, 92, e, 39] (by
+      intro b hb
+      rcases List.mem_cons.mp hb with rfl | hb
+      · decide
+      · rcases List.mem_cons.mp hb with rfl | hb
+        · decide
+        · rcases List.mem_cons.mp hb with rfl | hb
+          · exact he'
+          · simp at hb; subst hb; decide) hr
+  | str items nx hok =>
+    have : (34 :: renderAll items ++ [34]) ++ rest = [34] ++ (renderAll items ++ ([34] ++ rest)) := by simp
+    rw [this]
+    exact utf8_ascii_append [34] (by decide) (utf8_renderAll items hok (utf8_ascii_append [34] (by decide) hr))
+
+theorem doNext_punct (c : UInt8) (t : Tok) (rest : Bytes) (hpu : punct c.toNat = some t) (hur : Utf8 rest) (l k : Nat) :
+    doNext ⟨c :: rest, false, l, k⟩ = .tok ⟨l, k, t⟩ ⟨rest, false, (adv (l, k) [c]).1, (adv (l, k) [c]).2⟩ := by
+  have hc := punct_some hpu
+  have hdo : doNext ⟨c :: rest, false, l, k⟩ = emit ⟨c :: rest, false, l, k⟩ 1 true t := by
+    unfold doNext
+    simp [hpu]
+  rw [hdo]
+  have := emit_eq ⟨c :: rest, false, l, k⟩ [c] rest t true (by simp) (utf8_ascii_cons c hc.1 hur) hur
+    (by intro _ b hb; simp at hb; subst hb; exact ⟨hc.1, hc.2.1⟩)
+  simpa [State.pos] using this
+
+theorem doNext_shift (x : UInt8) (t : Tok) (rest : Bytes) (hx : x.toNat = 60 ∧ t = .shl ∨ x.toNat = 62 ∧ t = .shr)
+    (hur : Utf8 rest) (l k : Nat) :
+    doNext ⟨x :: x :: rest, false, l, k⟩ = .tok ⟨l, k, t⟩ ⟨rest, false, (adv (l, k) [x, x]).1, (adv (l, k) [x, x]).2⟩ := by
+  have hasc : x.toNat < 128 ∧ x.toNat ≠ 10 := by rcases hx with ⟨h, _⟩ | ⟨h, _⟩ <;> omega
+  have hdo : doNext ⟨x :: x :: rest, false, l, k⟩ = emit ⟨x :: x :: rest, false, l, k⟩ 2 true t := by
+    unfold doNext
+    rcases hx with ⟨h, rfl⟩ | ⟨h, rfl⟩
+    · simp [h, punct, secondIs]
+    · simp [h, punct, secondIs]
+  rw [hdo]
+  have := emit_eq ⟨x :: x :: rest, false, l, k⟩ [x, x] rest t true (by simp)
+    (utf8_ascii_append [x, x] (by intro b hb; simp at hb; subst hb; exact hasc.1) hur) hur
+    (by intro _ b hb; simp at hb; subst hb; exact hasc)
+  simpa [State.pos] using this
+
+theorem lexIdent_exact (b0 : UInt8) (tl rest : Bytes) (hs : identOk (b0 :: tl) = true) (hf : Follow rest.head?)
+    (hur : Utf8 rest) (l k : Nat) :
+    lexIdent ⟨b0 :: tl ++ rest, false, l, k⟩ =
+      .tok ⟨l, k, .ident (b0 :: tl)⟩ ⟨rest, false, (adv (l, k) (b0 :: tl)).1, (adv (l, k) (b0 :: tl)).2⟩ := by
+  have hall : ∀ x ∈ b0 :: tl, isIdentByte x = true := identOk_bytes hs
+  have hall' : ∀ x ∈ b0 :: tl, x.toNat < 128 ∧ x.toNat ≠ 10 := fun x hx => isIdentByte_ascii (hall x hx)
+  have hubr : Utf8 (b0 :: tl ++ rest) := utf8_ascii_append _ (fun x hx => (hall' x hx).1) hur
+  unfold lexIdent
+  cases rest with
+  | nil =>
+    simp only [List.append_nil] at hubr ⊢
+    have hpos : position (fun b => !isIdentByte b) (b0 :: tl) = none :=
+      position_none_of_all _ (by intro x hx; simp [hall x hx])
+    simp only [hpos, Bool.false_eq_true, if_false]
+    have : sliceTo (b0 :: tl) (b0 :: tl).length = some (b0 :: tl) := by
+      have hb := isBoundary_length (b0 :: tl)
+      simp only [sliceTo, hb, if_true, List.take_length]
+    rw [this]
+    simp only
+    have e := emit_eq ⟨b0 :: tl, false, l, k⟩ (b0 :: tl) [] (.ident (b0 :: tl)) true
+      (by simp) hubr Utf8.nil (fun _ => hall')
+    rw [e]
+    rfl
+  | cons r0 rtl =>
+    have hr0 : isIdentByte r0 = false := hf r0 rfl
+    have hpos : position (fun b => !isIdentByte b) (b0 :: tl ++ r0 :: rtl) = some (b0 :: tl).length :=
+      position_append_of_all (p := fun b => !isIdentByte b) (b0 :: tl) r0 rtl
+        (by intro x hx; simp [hall x hx]) (by simp [hr0])
+    simp only [hpos]
+    have hhead : ∀ x, (r0 :: rtl).head? = some x → isCont x = false := utf8_head? hur
+    rw [sliceTo_split (b0 :: tl) (r0 :: rtl) hhead]
+    simp only
+    have e := emit_eq ⟨b0 :: tl ++ r0 :: rtl, false, l, k⟩ (b0 :: tl) (r0 :: rtl) (.ident (b0 :: tl)) true
+      rfl hubr hur (fun _ => hall')
+    rw [e]
+    rfl
+
+theorem lexNumber_spell (r : Nat) (ds rest : Bytes) (v : Int) (hrx : r = 2 ∨ r = 8 ∨ r = 10 ∨ r = 16) (hne : ds ≠ [])
+    (hds : ∀ b ∈ ds, isDigit r b = true) (hv : i64FromStrRadix ds r = some v) (hf : Follow rest.head?)
+    (hur : Utf8 rest) (l k : Nat) :
+    lexNumber ⟨radixPrefix r ++ ds ++ rest, false, l, k⟩ =
+      .tok ⟨l, k, .num v⟩ ⟨rest, false, (adv (l, k) (radixPrefix r ++ ds)).1, (adv (l, k) (radixPrefix r ++ ds)).2⟩ := by
+  have hrestdig : ∀ b, rest.head? = some b → isDigit r b = false := by
+    intro b hb
+    cases hdg : isDigit r b with
+    | false => rfl
+    | true => have := hf b hb; rw [isIdentByte_of_isDigit hdg] at this; cases this
+  have hdet := prefix_detect r hrx ds rest hds (fun _ => hne) (by
+    intro _ b hb _
+    have := hf b hb
+    simp [isIdentByte] at this
+    omega)
+  have hlex := lexNumber_exact ⟨radixPrefix r ++ ds ++ rest, false, l, k⟩ (radixPrefix r) ds rest r rfl
+    hdet.1 hdet.2 hds
+    (by intro b hb
+        cases ds with
+        | nil => exact absurd rfl hne
+        | cons a ds' => simp at hb; subst hb; exact isDigit_noncont (hds _ (by simp)))
+    (by cases rest with
+        | nil => exact Or.inl ⟨rfl, rfl⟩
+        | cons r0 rtl => exact Or.inr ⟨r0, rtl, rfl, hrestdig r0 rfl, utf8_head? hur r0 rfl⟩)
+  rw [hlex, hv]
+  simp only
+  have hasc : ∀ b ∈ radixPrefix r ++ ds, b.toNat < 128 ∧ b.toNat ≠ 10 := by
+    intro b hb
+    simp at hb
+    rcases hb with hb | hb
+    · have := radixPrefix_ascii r b hb
+      refine ⟨this, ?_⟩
+      unfold radixPrefix at hb
+      split at hb
+      · simp at hb; rcases hb with rfl | rfl <;> decide
+      · split at hb
+        · simp at hb; rcases hb with rfl | rfl <;> decide
+        · split at hb
+          · simp at hb; rcases hb with rfl | rfl <;> decide
+          · simp at hb
+    · exact isDigit_ascii (hds b hb)
+  rw [Pos.adv_ascii (l, k) _ hasc]
+
 end Trion.Lex
